@@ -31,8 +31,15 @@ RULE = ("(1) kinds: the COMPLETE product {sun_zenith_angle, cos_zen, get_alt_az,
         "observer_position, gmst) on ONE Orbital object that reuse ONE time-array object and ONE lon/lat/alt array object, with "
         "in-place shifts of those arrays in between (one fixed swath sequence + seeded random ones, shapes (6,) and (2,3)): every "
         "result vs the scalar calls on a second object (1e-6 of the unit); "
-        "distinct = (function, time kind, coordinate kind) cell, instant, (function, shapes, element set, first instant) or "
-        "(element set, first instant, operation sequence)")
+        "(5) shapes of variation of the time array: the same ten functions x time kind {object array of datetimes, "
+        "datetime64[ns|us|ms|s] arrays} x 1-d (5-9 elements) / 2-d ((2,3) (2,4) (4,2) (3,3) (1,7) (5,1), pattern along rows or down "
+        "the columns) x order of the instants {increasing, constant, reversed, shuffled, out and back (first == last), sorted by "
+        "another key (longitude), repeated instants scattered through the array, first == last with a different middle, all equal "
+        "but one, periodic} x coordinates {one per element, one scalar observer}; instants = a track (spacing 1 s / 37 s / 10 min) "
+        "or seeded instants within 3 d / 0.1 d of the epoch: every element vs the scalar call given that element (1e-6 of the "
+        "unit, angles modulo a turn); "
+        "distinct = (function, time kind, coordinate kind) cell, instant, (function, shapes, element set, first instant), "
+        "(element set, first instant, operation sequence) or (function, time kind, rank, order, coordinates, element set, first instant)")
 ASSUMPTIONS = ["orbit cases are (element set, instant) pairs at which the propagated radius is 6300..100000 km; decayed element sets "
                "(radius 1e6 km and more a few days from epoch) are outside the sampled domain",
                "dask laziness and xarray wrappers are library behaviour (dask enumerated by kind and probed for laziness with a "
@@ -766,6 +773,120 @@ def check_broadcast(o, name, variant, times_us, lons, lats, alts):
     return cnt, bad
 
 
+# ------------------------------------------------------------------ oracle (5): shapes of variation of the time array
+TS_KINDS = ["obj", "ns", "us", "ms", "s"]         # object array of datetimes, datetime64 arrays of four units
+TS_PATTERNS = ["increasing", "constant", "reversed", "shuffled", "out_and_back", "other_key", "repeats_scattered",
+               "first_eq_last", "all_equal_but_one", "periodic"]
+TS_SHAPES = {1: [(5,), (6,), (7,), (8,), (9,)], 2: [(2, 3), (2, 4), (4, 2), (3, 3), (1, 7), (5, 1)]}
+
+
+def ts_index(pattern, n, rng, key):
+    """Which of n distinct instants (numbered in order of time) each of the n elements of the time array holds.
+    `key` = another quantity per instant (the order of 'other_key')."""
+    def monotone(seq):
+        d = [b - a for a, b in zip(seq, seq[1:])]
+        return all(x >= 0 for x in d) or all(x <= 0 for x in d)
+    if pattern == "increasing":
+        return list(range(n))
+    if pattern == "constant":
+        return [rng.randrange(n)] * n
+    if pattern == "reversed":
+        return list(range(n - 1, -1, -1))
+    if pattern == "other_key":
+        return sorted(range(n), key=lambda i: key[i])
+    if pattern == "out_and_back":
+        h = (n + 1) // 2
+        up = sorted(rng.sample(range(n), h))
+        if rng.random() < 0.5:
+            up = up[::-1]                           # back and out
+        return up + (up[::-1] if n % 2 == 0 else up[-2::-1])
+    if pattern == "periodic":
+        per = rng.choice([p for p in range(2, n) if (n - 1) % p == 0] or [2])
+        cyc = rng.sample(range(n), per)
+        return [cyc[i % per] for i in range(n)]
+    if pattern == "all_equal_but_one":
+        a, b = rng.sample(range(n), 2)
+        seq = [a] * n
+        seq[rng.randrange(1, n - 1) if rng.random() < 0.6 else rng.randrange(n)] = b
+        return seq
+    for _ in range(200):
+        if pattern == "shuffled":
+            seq = rng.sample(range(n), n)
+        elif pattern == "first_eq_last":
+            rest = rng.sample(range(n), n - 1)
+            seq = [rest[0]] + rest[1:] + [rest[0]]
+        elif pattern == "repeats_scattered":
+            pool = rng.sample(range(n), max(2, n // 2))
+            seq = [rng.choice(pool) for _ in range(n)]
+            if not any(seq[i] == seq[j] for i in range(n) for j in range(i + 2, n) if any(seq[k] != seq[i] for k in range(i, j))):
+                continue
+        else:
+            raise ValueError(pattern)
+        if not monotone(seq):
+            return seq
+    return seq
+
+
+def ts_arrays(kind, shape, layout, base_us, index):
+    """The time array (elements: base instants picked by `index`, laid along rows 'C' or down the columns 'F') and the
+    array of the picked numbers."""
+    idx = np.ascontiguousarray(np.array(index, dtype=np.int64).reshape(shape, order=layout))
+    if kind == "obj":
+        T = np.empty(shape, dtype=object)
+        for e in np.ndindex(shape):
+            T[e] = EPOCH70 + dt.timedelta(microseconds=int(base_us[idx[e]]))
+    else:
+        T = np.array(base_us, dtype=np.int64)[idx].astype("datetime64[us]").astype("datetime64[%s]" % kind)
+    return T, idx
+
+
+def check_timeshape(o, name, kind, shape, layout, coords, base_us, index, lons, lats, alts, cache=None):
+    """Array call of `name` on a time array with the given shape of variation (coordinates: one per element, following
+    the element's instant, or one scalar observer) vs the scalar call at each element's own instant (the element itself:
+    a datetime for object arrays, a datetime64 of the array's unit otherwise), 1e-6 of the unit, angles modulo a turn.
+    Returns (n_compared, [violations])."""
+    fa, fs, needs_coords, wrap, pos_layout = broadcast_calls(o)[name]
+    T, idx = ts_arrays(kind, shape, layout, base_us, index)
+    if coords == "elementwise":
+        lo, la, al = (np.array(v, dtype=float)[idx] for v in (lons, lats, alts))
+    else:
+        lo, la, al = float(lons[0]), float(lats[0]), float(alts[0])
+    cache = {} if cache is None else cache
+    bad = []
+    cnt = 0
+    with warnings.catch_warnings():
+        warnings.simplefilter("ignore")
+        arr = fa(T, lo, la, al)
+        if pos_layout:
+            arr = [c for block in arr for c in np.asarray(block)]
+        try:
+            full = [np.broadcast_to(np.asarray(a, dtype=float), shape) for a in arr]
+        except ValueError:
+            return 1, [("shape", 0, [], [list(np.shape(a)) for a in arr], list(shape))]
+        for e in np.ndindex(shape):
+            b = int(idx[e])
+            ck = (name, kind, coords if needs_coords else "-", b)
+            one = cache.get(ck)
+            if one is None:
+                if coords == "elementwise":
+                    one = fs(T[e], float(lons[b]), float(lats[b]), float(alts[b]))
+                else:
+                    one = fs(T[e], lo, la, al)
+                one = cache[ck] = [float(x) for x in one]
+            if len(full) != len(one):
+                bad.append(("arity", 0, list(e), len(full), len(one)))
+                return cnt, bad
+            for i, (a, s) in enumerate(zip(full, one)):
+                cnt += 1
+                d = abs(float(a[e]) - s)
+                if wrap and wrap[i]:
+                    d = min(d, abs(d - wrap[i]))
+                if not d <= 1e-6:
+                    bad.append(("array_vs_scalar", i, list(e), float(a[e]), s))
+                    return cnt, bad
+    return cnt, bad
+
+
 # ------------------------------------------------------------------ oracle (4): sequences reusing one array object
 SEQ_OPS = ["pos_n", "pos_km", "lla", "look", "modlook", "sza", "alt_az", "obs", "gmst"]
 FIXED_SEQ = ["pos_n", "lla", "pos_km", "shift:60", "lla", "pos_km", "pos_n", "look", "cshift:0.5", "look", "obs", "shift:-17", "sza", "pos_n", "pos_n"]
@@ -931,6 +1052,56 @@ def oracle(ctx):
                           got, ref, site="Orbital (sequence of queries): " + op)
 
 
+    # (5) shapes of variation of the time array: every function that takes times x time kind x 1-d / 2-d x pattern
+    names = list(broadcast_calls(objs[0][2]))
+    for k in range(ctx.size(4, 60)):
+        a_, b_, o = objs[(k * 3 + 1) % len(objs)]
+        shapes = {1: ctx.rng.choice(TS_SHAPES[1]), 2: ctx.rng.choice(TS_SHAPES[2])}
+        nmax = max(int(np.prod(s)) for s in shapes.values())
+        mode = k % 3
+        if mode == 0:
+            # a track: one start instant, regular spacing (seconds to minutes)
+            start = sane_times(ctx, o, 1, 3.0)
+            step = ctx.rng.choice([1.0, 37.0, 600.0])
+            ts = [start[0] + dt.timedelta(seconds=step * i) for i in range(nmax)] if start else []
+            ts = ts if all(sane(o, t) for t in ts) else []
+        else:
+            ts = sane_times(ctx, o, nmax, 3.0 if mode == 1 else 0.1)
+        if len(ts) < nmax:
+            continue
+        if ctx.rng.random() < 0.5:
+            ts = [t.replace(microsecond=0) for t in ts]
+        base_all = sorted(set(int((t - EPOCH70) / dt.timedelta(microseconds=1)) for t in ts))
+        if len(base_all) < nmax:
+            continue
+        lons = [ctx.rng.uniform(-180, 180) for _ in base_all]
+        lats = [ctx.rng.uniform(-90, 90) for _ in base_all]
+        alts = [ctx.rng.uniform(0, 2) for _ in base_all]
+        cache = {}
+        for rank in (1, 2):
+            shape = shapes[rank]
+            n = int(np.prod(shape))
+            base_us = base_all[:n]
+            for pattern in TS_PATTERNS:
+                index = ts_index(pattern, n, ctx.rng, lons)
+                layout = "C" if rank == 1 else ctx.rng.choice("CF")
+                for kind in TS_KINDS:
+                    for name in names:
+                        for coords in (("elementwise", "scalar") if broadcast_calls(o)[name][2] else ("-",)):
+                            try:
+                                cnt, bad = check_timeshape(o, name, kind, shape, layout, coords, base_us, index, lons, lats, alts, cache)
+                            except Exception as e:  # noqa
+                                cnt, bad = 1, [("raises", 0, [], type(e).__name__ + ": " + str(e)[:120], "a result")]
+                            ctx.count("eval_oracle_timeshape", cnt)
+                            ctx.bump("timeshape_pattern", pattern)
+                            ctx.distinct(("ts", name, kind, rank, pattern, coords, a_[2:7], base_us[0]))
+                            for vkind, i, idx, got, ref in bad:
+                                ctx.violation(vkind, {"check": "timeshape", "fn": name, "time_kind": kind, "shape": list(shape),
+                                                      "layout": layout, "pattern": pattern, "coords": coords, "line1": a_, "line2": b_,
+                                                      "base_us": base_us, "index": index, "lons": lons[:n], "lats": lats[:n],
+                                                      "alts": alts[:n], "component": i, "element": idx}, got, ref, site=name)
+
+
 def match_known(entry, v):
     return False
 
@@ -979,6 +1150,17 @@ def replay(ctx, case):
         for b in bad:
             print("violation: step %d (%s) component %d element %s: array %r, scalar call %r" % b)
         print("sequence", " ".join(inp["ops"]), "->", "%d violation(s) in %d comparisons" % (len(bad), n))
+        return 1 if bad else 0
+    if chk == "timeshape":
+        try:
+            n, bad = check_timeshape(o, inp["fn"], inp["time_kind"], tuple(inp["shape"]), inp["layout"], inp["coords"], inp["base_us"],
+                                     inp["index"], inp["lons"], inp["lats"], inp["alts"])
+        except Exception as e:  # noqa
+            n, bad = 1, [("raises", type(e).__name__ + ": " + str(e)[:120])]
+        for b in bad:
+            print("violation:", b)
+        print(inp["fn"], inp["time_kind"], inp["shape"], inp["pattern"], "elements hold instants", inp["index"], "->",
+              "%d violation(s) in %d comparisons" % (len(bad), n))
         return 1 if bad else 0
     if chk == "broadcast":
         try:
